@@ -55,7 +55,7 @@ PROPS = {
         "lean": "Originium.Props.C01",
         "suites": ["key", "levels", "db"],
         "skeleton_funcs": DB_SKEL,
-        "trusted_base": DB_TB + ["extract/gotrans.go (the Go-to-Lean translator, DESIGN section 14): regenerates GenDB.search (DB.search) from /repo on every run; memtable.lowerBound and levelManager.searchLowerBound are parameters (C17, C10), types.IsSameKey compares user keys, container/list is a list; DBTie.search_tie is part of this property's module"],
+        "trusted_base": DB_TB + ["extract/gotrans.go (the Go-to-Lean translator, DESIGN section 14): regenerates GenDB.search (DB.search) from /repo on every run; memtable.lowerBound and levelManager.searchLowerBound are parameters (C17, C10), types.IsSameKey compares user keys, container/list is a list; DBTie.search_tie is part of this property's module; types.Value is translated too (GenTypes.value, TypesTie.value_eq, C01_code_read_value)"],
         "assumptions": ["a read sliced into its per-generation lookups is treated as one step (db.search holds db.mu.RLock for its whole duration; concurrent inserts have timestamps above the reader's)"],
         "explanation": "storage model with commit/rotate/flushAdd/flushRemove/compact steps, invariant Inv proved for every step, read theorem get_eq_spec; DB.search translated from the Go source on every run and proved to be the model's get (C01_code_*); db suite replays real executions (API results, table contents, watermark values) through the model",
     },
